@@ -13,6 +13,7 @@ PARENT = {
     'OTHER': None, 'MHXM': None, 'ROOT': None,
 }
 ALL = list(PARENT)
+TOP = [c for c in ALL if PARENT[c] is None]
 assert len(ALL) == 37
 
 CHILDREN = {c: [k for k in ALL if PARENT[k] == c] for c in ALL}
